@@ -122,6 +122,48 @@ def parseStore (j : Json) : List (ArtEntity String) :=
         | _ => none }
 def showInt (i : Int) : String := toString i
 
+/-! Histories (`art_history`): steps and observations as JSON. -/
+def parseStep (j : Json) : ArtStep String :=
+  match strD j "k" with
+  | "issue" => .issue (text j "entity_id") ((hex? j "sourceid").getD []) ((hex? j "handle").getD []) (intD j "idx")
+  | "reload" => .reload (parseStore j)
+  | _ => .resolve (natD j "i")
+
+def obsToJson : ArtObs String → Json
+  | .issued art dest =>
+    Json.mkObj [("art", match art with | some a => Json.str (ofPoints a) | none => Json.null),
+      ("dest", match dest with | some d => destToJson d | none => Json.null),
+      ("carried", match art with | some a => Json.str (ofPoints a) | none => Json.null),
+      ("stored", Json.bool art.isSome)]
+  | .reloaded => Json.mkObj [("reloaded", Json.bool true)]
+  | .resolved dest => Json.mkObj [("dest", match dest with | some d => destToJson d | none => Json.null)]
+
+/-- The per-step specification on a list of observations (the model's or the implementation's):
+    an issued artifact decodes to the index and issuer it was created with, travels unchanged,
+    is remembered by its issuer, and every resolution answers from the table in force. -/
+def specHistory (store : List (ArtEntity String)) (seen : List Bytes) : List (ArtStep String) → List Json → Bool
+  | [], [] => true
+  | .issue _ sid _ idx :: steps, o :: obs =>
+    let art := (str? o "art").map bytesOf
+    let dest := (obj? o "dest").map parseDest
+    specArtifact sid idx art &&
+    (match art with
+     | none => true
+     | some a => (str? o "carried").map bytesOf == some a && boolD o "stored" &&
+        (match dest with | some d => specArtDest showInt store sid idx d | none => false)) &&
+    specHistory store (match art with | some a => seen ++ [a] | none => seen) steps obs
+  | .reload st :: steps, _ :: obs => specHistory st seen steps obs
+  | .resolve i :: steps, o :: obs =>
+    (match seen[i]? with
+     | none => true
+     | some a =>
+       match decodeArtifact a, (obj? o "dest").map parseDest with
+       | some info, some d => specArtDest showInt store info.sourceId info.index d
+       | none, some d => d == .refused
+       | _, none => false) &&
+    specHistory store seen steps obs
+  | _, _ => false
+
 def handle (line : Json) : Json :=
   let c := (obj? line "case").getD Json.null
   let impl := (obj? line "impl").getD Json.null
@@ -185,8 +227,10 @@ def handle (line : Json) : Json :=
       let fields := fieldsUnesc html
       let payload := (fields.head?.map (·.2)).getD []
       let unr := if saml then unravelPost inflate payload else some payload
-      let model := Json.mkObj [("html", jhex html), ("fields", pairsToJson fields),
-        ("action", jhexOpt ((rawActions (tags html)).head?.map htmlUnescape)), ("unraveled", jhexOpt unr)]
+      let viaEntity := strD c "via" == "apply_binding"     -- `Entity.apply_binding` also reports where to send
+      let model := Json.mkObj ([("html", jhex html), ("fields", pairsToJson fields),
+        ("action", jhexOpt ((rawActions (tags html)).head?.map htmlUnescape)), ("unraveled", jhexOpt unr)] ++
+        (if viaEntity then [("info_url", jhex loc), ("method", Json.str "POST")] else []))
       let ref := refForm (!rs.isEmpty)
       let ihtml := hex? impl "html"
       let specM := specForm inflate ref typ msg loc rs html && unr == some msg
@@ -194,7 +238,8 @@ def handle (line : Json) : Json :=
         | none => false
         | some h => (if h == html then specM else specForm inflate ref typ msg loc rs h) &&
             implFieldsOk typ rs (pairsOf impl "fields") && hex? impl "action" == some loc &&
-            hex? impl "unraveled" == some msg
+            hex? impl "unraveled" == some msg &&
+            (!viaEntity || (hex? impl "info_url" == some loc && str? impl "method" == some "POST"))
       let path := "post/" ++ (if saml then "saml" else "other-typ") ++ (if rs.isEmpty then "" else "+relay") ++
         (if htmlEscape loc != loc || htmlEscape rs != rs then "+escaped" else "")
       res model path specM specImpl
@@ -219,8 +264,10 @@ def handle (line : Json) : Json :=
       let ps := parseQsl (queryOf url)
       let v := qsFirstLast ps typ
       let unr := if typ == sSAMLart then v else v.bind (unravelRedirect inflate)
-      let model := Json.mkObj [("url", jhex url), ("params", pairsToJson ps), ("unraveled", jhexOpt unr),
-        ("relay", jhexOpt (qsFirstLast ps sRelayState))]
+      let viaEntity := strD c "via" == "apply_binding"
+      let model := Json.mkObj ([("url", jhex url), ("params", pairsToJson ps), ("unraveled", jhexOpt unr),
+        ("relay", jhexOpt (qsFirstLast ps sRelayState))] ++
+        (if viaEntity then [("info_url", jhex loc), ("method", Json.str "GET")] else []))
       let specOf (u : Bytes) := specRedirect inflate typ msg loc rs u
       let specM := specOf url
       -- the destination's own query already carries a parameter of the same name: the harness's
@@ -230,6 +277,7 @@ def handle (line : Json) : Json :=
       let specImpl := match hex? impl "url" with
         | none => false
         | some u => (if u == url then specM else specOf u) &&
+            (!viaEntity || (hex? impl "info_url" == some loc && str? impl "method" == some "GET")) &&
             (clash || (typ == sSAMLart && msg.isEmpty) || (hex? impl "unraveled" == some msg &&
               hex? impl "relay" == (if rs.isEmpty then none else some rs)))
       let path := "redirect/" ++ (if typ == sSAMLart then "art" else "saml") ++ (if rs.isEmpty then "" else "+relay") ++
@@ -322,6 +370,16 @@ def handle (line : Json) : Json :=
       ("art_dest/" ++ (match decodeArtifact art with
         | none => "undecodable"
         | some _ => match m with | .dest _ => "resolved" | .noEndpoint => "no-endpoint" | .refused => "unknown-issuer")) true true
+  | "art_history" =>
+    let store := parseStore c
+    let steps := (arrD c "steps").map parseStep
+    let m := (runArt showInt { store := store } steps).map obsToJson
+    let iv := arrD impl "obs"
+    let nReload := (steps.filter fun s => match s with | .reload _ => true | _ => false).length
+    let nIssued := (m.filter fun o => (str? o "art").isSome).length
+    res (Json.mkObj [("obs", jarr m)])
+      ("art_history/reloads=" ++ toString (min nReload 2) ++ (if nIssued == 0 then "/none-issued" else "/issued"))
+      (specHistory store [] steps m) (specHistory store [] steps iv)
   | "art_fields" =>
     let hi := natD c "hi"
     let m := (List.range 256).map fun lo => showInt (decodeIndex [hi, lo])
